@@ -224,14 +224,22 @@ func (a Float) M__itruediv__(other Object) (Object, error) {
 
 func (a Float) M__floordiv__(other Object) (Object, error) {
 	if b, ok := convertToFloat(other); ok {
-		return Float(math.Floor(float64(a / b))), nil
+		q, _, err := floatDivMod(a, b)
+		if err != nil {
+			return nil, err
+		}
+		return q, nil
 	}
 	return NotImplemented, nil
 }
 
 func (a Float) M__rfloordiv__(other Object) (Object, error) {
 	if b, ok := convertToFloat(other); ok {
-		return Float(math.Floor(float64(b / a))), nil
+		q, _, err := floatDivMod(b, a)
+		if err != nil {
+			return nil, err
+		}
+		return q, nil
 	}
 	return NotImplemented, nil
 }
@@ -245,9 +253,31 @@ func floatDivMod(a, b Float) (Float, Float, error) {
 	if b == 0 {
 		return 0, 0, floatDivisionByZero
 	}
-	q := Float(math.Floor(float64(a / b)))
-	r := a - q*b
-	return q, Float(r), nil
+	// math.Mod is exact, so a-mod is mathematically an exact
+	// multiple of b, but the floating point a-mod is an
+	// approximation so div may not be exactly integral
+	mod := Float(math.Mod(float64(a), float64(b)))
+	div := (a - mod) / b
+	if mod != 0 {
+		// ensure the remainder has the same sign as the denominator
+		if (b < 0) != (mod < 0) {
+			mod += b
+			div -= 1
+		}
+	} else {
+		// a zero remainder has the same sign as the denominator
+		mod = Float(math.Copysign(0, float64(b)))
+	}
+	if div != 0 {
+		// snap quotient to nearest integral value
+		q := Float(math.Floor(float64(div)))
+		if div-q > 0.5 {
+			q += 1
+		}
+		return q, mod, nil
+	}
+	// div is zero - get the same sign as the true quotient
+	return Float(math.Copysign(0, float64(a/b))), mod, nil
 }
 
 func (a Float) M__mod__(other Object) (Object, error) {
